@@ -14,6 +14,8 @@
 uint8_t vg_in[VG_IN_MAX];
 size_t  vg_in_pos;
 _Bool   vg_eof;         /* set when the callback has reported end of input (returned 0 for a non-empty request) */
+unsigned vg_eof_run;    /* ghost: consecutive end-of-input answers given so far */
+unsigned vg_eof_limit;  /* 0 = off; otherwise the harness's bound on consecutive end-of-input answers within one call */
 
 /* ASSUME: LHADecoderCallback contract, functional form: returns n <= buf_len (any short count), copies the
    next n input bytes to buf, advances the input; 0 for a non-empty request means end of input. */
@@ -27,7 +29,14 @@ size_t vg_cbf(void *buf, size_t buf_len, void *user_data)
 	if (n > 1) p[1] = vg_in[vg_in_pos + 1];
 	if (n > 2) p[2] = vg_in[vg_in_pos + 2];
 	if (n > 3) p[3] = vg_in[vg_in_pos + 3];
-	if (n == 0 && buf_len > 0) vg_eof = 1;
+	if (n == 0 && buf_len > 0) {
+		vg_eof = 1;
+		vg_eof_run++;
+		/* C13: a function that is told "end of input" gives up instead of asking again and again */
+		__CPROVER_assert(vg_eof_limit == 0 || vg_eof_run <= vg_eof_limit, "C13: no more than the stated number of consecutive end-of-input answers are requested within one call");
+	} else if (n > 0) {
+		vg_eof_run = 0;
+	}
 	vg_in_pos += n;
 	return n;
 }
